@@ -182,6 +182,13 @@ def handle (toks : List String) : Option String :=
       let sy := mkSys r
       some (observe sy (run layout sy.prog σ (init (fun _ => .pristine))))
     | _, _ => some "bad-op"
+  | "c11.writes" :: _ =>
+    match parseRound toks.tail with
+    | some r =>
+      let sy := mkSys r
+      let s := run layout sy.prog (seqSchedule sy) (init (fun _ => .pristine))
+      some s!"copies={(s.acc.filter (fun a => a.v == .text && a.write)).length}"
+    | none => some "bad-op"
   | ["c11.skel", name] => some ((skel name).getD "bad-op")
   | "c11.skel" :: _ => some "bad-op"
   | _ => none
